@@ -873,13 +873,13 @@ func (c *Ctx) errorHandled(ev ssa.Value, f *ssa.Function, chainExec map[*ssa.Fun
 			}
 		case ssa.CallInstruction:
 			n := core.CalleeName(x.Common())
-			if strings.HasSuffix(n, "go-multierror.Append") {
-				handled, detail = true, "accumulated with multierror.Append"
+			if isErrAccumulator(x.Common()) {
+				handled, detail = true, "accumulated with multierror.Append / errors.Join"
 			}
 			if cal := x.Common().StaticCallee(); cal != nil && p.InTarget(cal) && cal.Signature.Results().Len() == 1 && core.NamedOf(cal.Signature.Results().At(0).Type()) == "Result" {
 				handled, detail = true, "converted into an error Result"
 			}
-			if n == "reflect.ValueOf" {
+			if n == "reflect.ValueOf" || c.errBoxer(x.Common().StaticCallee()) {
 				handled, detail = true, "boxed as the error return value of a generated function"
 			}
 		case *ssa.Store:
@@ -889,6 +889,9 @@ func (c *Ctx) errorHandled(ev ssa.Value, f *ssa.Function, chainExec map[*ssa.Fun
 		case *ssa.Panic:
 			handled, detail = true, "raised as panic (audited by rule PANIC)"
 		}
+	}
+	if !handled && flowsToAccumulator(ev) {
+		handled, detail = true, "collected into a list of errors that is joined (errors.Join / multierror.Append)"
 	}
 	return handled, detail
 }
@@ -1018,8 +1021,43 @@ func (c *Ctx) runTaint(errMethod, exec, res *ssa.Function) {
 	// Result.Err returns buildErr or the final output's interface value, nothing derived
 	ok := true
 	why := ""
-	for _, r := range core.Returns(errMethod) {
-		for _, rv := range r.Results {
+	// the returns of Err, and of a private accessor it hands the final output's error back through (`return r.outErr()`)
+	var errRets []*ssa.Return
+	{
+		seenFn := map[*ssa.Function]bool{}
+		var collect func(g *ssa.Function, d int)
+		collect = func(g *ssa.Function, d int) {
+			if g == nil || seenFn[g] || d > 2 {
+				return
+			}
+			seenFn[g] = true
+			for _, r := range core.Returns(g) {
+				fwd := false
+				if len(r.Results) == 1 {
+					if cl, isC := r.Results[0].(*ssa.Call); isC {
+						if h := cl.Common().StaticCallee(); h != nil && p.PrivateHelper(h) && h.Signature.Results().Len() == 1 {
+							collect(h, d+1)
+							fwd = true
+						}
+					}
+				}
+				if !fwd {
+					errRets = append(errRets, r)
+				}
+			}
+		}
+		collect(errMethod, 0)
+	}
+	for _, r := range errRets {
+		var rvs []ssa.Value
+		for _, rv0 := range r.Results {
+			if _, isPhi := rv0.(*ssa.Phi); isPhi {
+				rvs = append(rvs, core.Sources(rv0)...) // `var e error; if … { e = … }; return e`
+			} else {
+				rvs = append(rvs, rv0)
+			}
+		}
+		for _, rv := range rvs {
 			switch x := rv.(type) {
 			case *ssa.Const:
 			case *ssa.UnOp:
@@ -1167,4 +1205,65 @@ func (c *Ctx) coResultUsedBeforeCheck(call *ssa.Call, ev ssa.Value, errIdx int) 
 		}
 	}
 	return ""
+}
+
+// isErrAccumulator: a call that collects errors into one error value that is non-nil as soon as one of them is
+// (go-multierror's Append, the standard library's errors.Join).
+func isErrAccumulator(cc *ssa.CallCommon) bool {
+	if strings.HasSuffix(core.CalleeName(cc), "go-multierror.Append") {
+		return true
+	}
+	pk, fn := core.StdCallee(cc.StaticCallee())
+	return pk == "errors" && fn == "Join"
+}
+
+// flowsToAccumulator: the error value reaches an accumulator call — directly, through the variadic argument array, or
+// through a list of errors that is appended to and later joined.
+func flowsToAccumulator(ev ssa.Value) bool {
+	seen := map[ssa.Value]bool{}
+	work := []ssa.Value{ev}
+	for steps := 0; len(work) > 0 && steps < 200; steps++ {
+		v := work[len(work)-1]
+		work = work[:len(work)-1]
+		if v == nil || seen[v] {
+			continue
+		}
+		seen[v] = true
+		refs := v.Referrers()
+		if refs == nil {
+			continue
+		}
+		for _, u := range *refs {
+			switch x := u.(type) {
+			case ssa.CallInstruction:
+				if isErrAccumulator(x.Common()) {
+					return true
+				}
+				if cl, ok := u.(*ssa.Call); ok && core.CalleeName(cl.Common()) == "builtin.append" {
+					work = append(work, cl)
+				}
+			case *ssa.Store:
+				if x.Val == v {
+					if ia, ok := x.Addr.(*ssa.IndexAddr); ok {
+						work = append(work, ia.X) // the variadic array (or a list element)
+					} else if al, ok := x.Addr.(*ssa.Alloc); ok {
+						work = append(work, al)
+					}
+				}
+			case *ssa.Slice:
+				work = append(work, x)
+			case *ssa.Phi:
+				work = append(work, x)
+			case *ssa.MakeInterface:
+				work = append(work, x)
+			case *ssa.ChangeInterface:
+				work = append(work, x)
+			case *ssa.UnOp:
+				if x.Op == token.MUL {
+					work = append(work, x)
+				}
+			}
+		}
+	}
+	return false
 }
